@@ -190,3 +190,77 @@ def run_years(ctx, prog, res, thorough=False):
         msg = "`%d-%d%s`: asked on %04d-%02d-%02d the hint promises no change before %04d-%02d-%02d, but the filter changes on %d-01-01: the days in between are skipped" % (s, e, "/%d" % k if k != 1 else "", *date, *h, nc)
     r9.check(bad is None, {"ranges": len(years) ** 2, "steps": steps, "filter_evaluations": n_f, "hint_evaluations": n_h, "hint_answers_seen": sorted(cases)}, "C02.R9:year-range", msg, lib.where_of(hint))
     r9.check({"year", "end"} <= cases, {"hint_cases_exercised": sorted(cases)}, "C02.R9:FLOOR", "FLOOR: the scope no longer exercises both a dated hint and the `never again` answer (%s)" % sorted(cases), lib.where_of(hint))
+
+
+WKR = "opening_hours_syntax::rules::day::WeekRange"
+
+
+def run_weeks(ctx, prog, res, thorough=False):
+    r10 = res.rule("C02.R10", "week ranges (`week 10-20`, `week 1-53/2`, `week 52-53`): the hint of WeekRange never promises a longer constant stretch than its filter gives. The hint contains a loop: it is extracted per path with the loop unrolled up to three times, every local resolved to its last definition before the use (pathterms.paths_with_loops, flow.shape_at), and evaluated with the filter (peval, ISO weeks modelled) for week ranges over {1, 2, 10, 26, 51, 52, 53} written in order (thorough: all), steps 1, 2, 3, on every day from 2020-12-14 to 2021-01-17 (around a 53-week year) and two days of every other week until the end of 2021; the filter's table runs to the end of 2023")
+    filt = prog.impl_method_one("DateFilter", "filter", self_adt=WKR)
+    hint = prog.impl_method_one("DateFilter", "next_change_hint", self_adt=WKR)
+    ev = peval.Evaluator(prog, externs=EXTERNS, consts={"DATE_END": peval.DATE_END, "DATE_START": peval.DATE_START})
+    weeks = list(range(1, 54)) if thorough else [1, 2, 10, 26, 51, 52, 53]
+    steps = [1, 2, 3]
+    # Mondays of the table
+    mondays = []
+    d = (2020, 11, 30)
+    while d < (2024, 1, 1):
+        mondays.append(d)
+        d = peval.from_ordinal(peval.ordinal(d) + 7)
+    queries = []
+    d = (2020, 12, 14)
+    while d <= (2021, 1, 17):
+        queries.append(d)
+        d = peval.succ(d)
+    d = (2021, 1, 18)
+    while d < (2022, 1, 1):
+        queries.append(d)
+        queries.append(peval.from_ordinal(peval.ordinal(d) + 6))
+        d = peval.from_ordinal(peval.ordinal(d) + 7)
+    n_f = n_h = 0
+    bad = None
+    answers = set()
+    try:
+        for s in weeks:
+            for e in weeks:
+                if s > e:
+                    continue  # the hint answers `unknown` for wrapping ranges (checked below on one range)
+                for k in steps:
+                    sel = {"range": ("range", s, e), "step": k}
+                    table = {}
+                    for m in mondays:
+                        table[peval.ordinal(m)] = bool(ev.run(filt, [sel, m, None]))
+                        n_f += 1
+                    val = lambda day: table[peval.ordinal(day) - peval.weekday(day)]
+                    for q in queries:
+                        h = ev.run(hint, [sel, q, None])
+                        n_h += 1
+                        if h is None:
+                            answers.add("unknown")
+                            continue
+                        h = h[1]
+                        answers.add("date")
+                        cur = val(q)
+                        # first Monday after q where the table changes
+                        m = peval.from_ordinal(peval.ordinal(q) - peval.weekday(q) + 7)
+                        nc = None
+                        while peval.ordinal(m) in table:
+                            if table[peval.ordinal(m)] != cur:
+                                nc = m
+                                break
+                            m = peval.from_ordinal(peval.ordinal(m) + 7)
+                        if nc is not None and h > nc and bad is None:
+                            bad = (s, e, k, q, h, nc)
+        wrap = ev.run(hint, [{"range": ("range", 51, 2), "step": 1}, (2021, 1, 6), None])
+        n_h += 1
+    except peval.Unmodelled as ex:
+        r10.fail("C02.R10:unmodelled", "filter / hint of WeekRange cannot be evaluated from their MIR any more (%s): not decided, failing closed" % ex, lib.where_of(hint))
+        return
+    msg = ""
+    if bad:
+        s, e, k, q, h, nc = bad
+        msg = "`week %02d-%02d%s`: asked on %04d-%02d-%02d (ISO week %d) the hint promises no change before %04d-%02d-%02d, but the filter changes on %04d-%02d-%02d: the days in between are skipped" % (s, e, "/%d" % k if k != 1 else "", *q, peval.iso_week(q)[1], *h, *nc)
+    r10.check(bad is None, {"week_ranges": sum(1 for s in weeks for e in weeks if s <= e), "steps": steps, "filter_evaluations": n_f, "hint_evaluations": n_h, "hint_answers_seen": sorted(answers)}, "C02.R10:week-range", msg, lib.where_of(hint))
+    r10.check(wrap is None, {"wrapping_range_hint": "unknown"}, "C02.R10:wrapping", "the hint of the wrapping range `week 51-02` is %r: the filter matches weeks 51..53 and 1..2, a dated hint computed as for a range written in order skips a change" % (wrap,), lib.where_of(hint))
+    r10.check("date" in answers, {"hint_answers_seen": sorted(answers)}, "C02.R10:FLOOR", "FLOOR: the scope no longer exercises a dated hint", lib.where_of(hint))
